@@ -71,7 +71,7 @@ func (pnf *PageNumberFinder) FindPagination(root *html.Node, pageURL *nurl.URL) 
 	url := *pageURL
 	url.Path = strings.TrimSuffix(url.Path, "/")
 	url.RawPath = url.Path
-	strPageURL := stringutil.UnescapedString(&url)
+	strPageURL := url.String()
 
 	pnf.baseURL = pageURL
 	paramInfo := pnf.FindOutlink(root, &url)
